@@ -21,7 +21,17 @@ from common import tok
 # TODO(main): signatures of misbehaviour of the UNCHANGED library exposed by the new coverage; they are routed
 # through report.known_match() (printed as KNOWN-FINDING once registered in known_findings.json) and, until
 # then, kept from failing the check by this list.
-PENDING_FINDINGS = []   # (the touch-on-a-lower-layer-file finding is registered in known_findings.json)
+PENDING_FINDINGS = [    # (the touch-on-a-lower-layer-file finding is registered in known_findings.json)
+    # MountFS / MultiFS inherit FS.islink (getinfo(); return False): a symlink inside an OSFS / TempFS member is
+    # reported as "not a link" although the member itself answers True
+    "a method that is neither data nor metadata is not answered by the routed filesystem (MountFS.islink)",
+    "a method that is neither data nor metadata is not answered by the routed filesystem (MultiFS.islink)",
+    # fs.move.move_file(osfs, p, multifs, q) with q present in an OS-backed member that is NOT the write filesystem:
+    # the rename fast path (MultiFS.getsyspath(q) = the first holder's path) overwrites q inside that member; the
+    # write filesystem gets nothing; without any write filesystem the move succeeds instead of ResourceReadOnly
+    "moving a file through a composite with OS-backed members does not move it between the routed filesystems "
+    "(move_file(OSFS -> MultiFS, a name that exists in the members))",
+]
 
 LOGGED = ("getinfo", "listdir", "makedir", "openbin", "remove", "removedir", "setinfo", "scandir",
           "open", "makedirs", "move", "copy", "movedir", "copydir", "removetree", "exists", "isdir",
@@ -396,26 +406,35 @@ def op_with_path(o, p):
     return (o[0], p) + tuple(o[2:])
 
 
-def run_spelling_fixture(fx, seed, bad, stats):
-    """Mount, then replay the calls on the MountFS and on the twin members; appends findings to bad."""
+def run_spelling_fixture(fx, seed, bad, stats, when=None, kind="spelling"):
+    """Replay the calls on the MountFS and on the twin members; appends findings to bad.
+    when[i] = number of calls made BEFORE mount argument i is mounted (non-decreasing; default: every mount
+    happens before the first call).  Calls made before a mount are routed by the mounts that exist then."""
     from fs.mountfs import MountFS
     from fs.memoryfs import MemoryFS
     import fs.path as P
-    args, classes, calls = fx
+    args, classes, calls = fx[:3]
+    when = list(when) if when is not None else [0] * len(args)
     ctx = dict(mount_arguments=args, mount_classes=classes)
+    if any(when):
+        ctx["calls_made_before_each_mount"] = when
+    tail = "mount-point / call-path spelling" if kind == "spelling" else "mount() interleaved with calls"
     expected_ok = parse_nats(model_ask(mountable_line(args)))
     log = []
     mf = MountFS()
     members, twins, accepted = [], [], []
+    default_twin = MemoryFS()
     for i, mp in enumerate(args):
         inner, twin = MemoryFS(), MemoryFS()
         prefill(inner, random.Random("%d/%d" % (seed, i)), str(i))
         prefill(twin, random.Random("%d/%d" % (seed, i)), str(i))
         members.append(inner)
         twins.append(twin)
+
+    def do_mount(i):
+        mp = args[i]
         try:
-            mf.mount(mp, make_recorder(log, i)(inner))
-            accepted.append(i)
+            mf.mount(mp, make_recorder(log, i)(members[i]))
             res = "ok"
         except Exception as e:  # noqa
             res = "err:" + type(e).__name__
@@ -430,21 +449,32 @@ def run_spelling_fixture(fx, seed, bad, stats):
         if res != exp:
             bad.append(("mount(): acceptance of a mount point differs from the rule on its normalised path",
                         dict(ctx, mount_point=mp, spelling=classes[i]), res, dict(expected=exp)))
-    if accepted != expected_ok:
-        mf.close()
-        return
-    live = [args[i] for i in accepted]
-    default_twin = MemoryFS()
-    for mp in live:
-        default_twin.makedirs(P.abspath(P.normpath(mp)), recreate=True)
-    for o, cclass in calls:
+            return False
+        if res == "ok":
+            accepted.append(i)
+            # the mount point is a directory of the default tree from now on
+            default_twin.makedirs(P.abspath(P.normpath(mp)), recreate=True)
+        return True
+    mounted = 0
+    for j in range(len(calls) + 1):
+        while mounted < len(args) and when[mounted] <= j:
+            if not do_mount(mounted):
+                mf.close()
+                return
+            mounted += 1
+        if j == len(calls):
+            break
+        o, cclass = calls[j]
+        live = [args[i] for i in accepted]
         stats["calls"] += 1
         stats["pairs"].add((tuple(sorted(set(classes))), cclass))
+        if len(accepted) < len(expected_ok):
+            stats["early"] = stats.get("early", 0) + 1
         route = parse_route(model_ask(route_line(live, o[1])))
         del log[:]
         res = fsops.execute(mf, o)
         touched = sorted(set(e[0] for e in log))
-        c2 = dict(ctx, call=o, call_path_spelling=cclass)
+        c2 = dict(ctx, call=o, call_path_spelling=cclass, mounted_so_far=live)
         if route == "err":
             if res != "err:IllegalBackReference" or touched:
                 bad.append(("a call path above the root was not refused", c2, res, dict(touched=touched)))
@@ -466,12 +496,12 @@ def run_spelling_fixture(fx, seed, bad, stats):
             bad.append(("a filesystem other than the routed one was touched", c2, res,
                         dict(expected=want, touched=touched, log=log[:6])))
         if res != exp:
-            bad.append(("outcome differs from the routed filesystem's own answer (mount-point / call-path spelling)",
+            bad.append(("outcome differs from the routed filesystem's own answer (%s)" % tail,
                         c2, res, dict(expected=exp, routed=route)))
             break
         diverged = [i for i in range(len(members)) if snap(members[i]) != snap(twins[i])]
         if diverged or snap(mf.default_fs) != snap(default_twin):
-            bad.append(("effect differs from the same call on the routed filesystem (mount-point / call-path spelling)",
+            bad.append(("effect differs from the same call on the routed filesystem (%s)" % tail,
                         c2, res, dict(routed=route, members_diverged=diverged,
                                       default_diverged=snap(mf.default_fs) != snap(default_twin))))
             break
@@ -502,6 +532,96 @@ def spelling_sweep(rnd, seed, thorough, bad):
                 mount_point_classes=len(SPELLINGS), call_path_classes=len(SPELLINGS),
                 class_pairs_driven=len(set((m, c) for ms, c in stats["pairs"] for m in ms)),
                 overlap_shapes=len(OVERLAPS))
+
+
+# --------------------------------------------------------------------------- MountFS: mount() interleaved with use
+#
+# The composites of the sweeps above are fully configured before their first call.  Here mount() happens after
+# 0 / 1 / several calls, on paths that already have content in the default tree (which the mount then hides), and
+# every call is routed by the mounts that exist AT THAT MOMENT (extracted `route mount` on the current list) - i.e.
+# the MountFS must behave like a freshly built one with the same mounts.  Same twin oracle as the spelling sweep.
+
+GAPS = (0, 1, 3)
+FILE_MAKERS = ("writebytes", "appendbytes", "create", "touch", "openwrite")
+
+
+def mount_config_fixtures(rnd, thorough):
+    import fs.path as P
+    sets = []
+    for k in (1, 2, 3):
+        sets += [list(c) for c in itertools.permutations(MOUNT_TARGETS, k)]
+    patterns = {k: list(itertools.product(GAPS, repeat=k)) for k in (1, 2, 3)}
+    fixtures = []
+    for rnd_i in range(3 if thorough else 1):
+        for si, targets in enumerate(sets):
+            k = len(targets)
+            gaps = patterns[k][(si + rnd_i * 7) % len(patterns[k])]
+            if not any(gaps):
+                gaps = tuple(rnd.choice(GAPS[1:]) for _ in range(k))      # all-zero = the fully configured case above
+            classes = [rnd.choice(STAYING) if rnd.random() < 0.3 else "abs" for _ in range(k)]
+            args = [SPELL[c](t) for c, t in zip(classes, targets)]
+            calls, when = [], []
+
+            def keep_mountable(o, pending):
+                """No FILE at (or above) a point that is mounted later: mount() needs a directory there."""
+                if o[0] not in FILE_MAKERS:
+                    return o
+                try:
+                    q = P.abspath(P.normpath(o[1]))
+                except Exception:
+                    return o
+                if any(P.isbase(q, t) for t in pending):
+                    return ("makedir", o[1], True)
+                return o
+            for i, t in enumerate(targets):
+                b = t.rstrip("/")
+                seeds = [("makedirs", b + "/a", True), ("writebytes", b + "/top0", b"D"), ("writebytes", b + "/dflt", b"D"),
+                         ("makedirs", b + "/a/b", True), ("writebytes", b + "/a/f0", b"D")]
+                n = gaps[i]
+                chosen = seeds[:1] if n == 1 else seeds[:2] + [rnd.choice(seeds[2:])] if n else []
+                for o in chosen:
+                    if rnd.random() < 0.25:
+                        cc = rnd.choice(STAYING)
+                        o = keep_mountable(rnd.choice(SINGLE_OPS)(SPELL[cc](rnd.choice(call_targets(targets)))), targets[i:])
+                    else:
+                        cc = "abs"
+                    calls.append((o, cc))
+                when.append(len(calls))
+            # after the last mount: what was seeded into the default tree, and a few random calls
+            for t in targets:
+                b = t.rstrip("/")
+                for o in rnd.sample([("readbytes", b + "/top0"), ("listdir", b or "/"), ("exists", b + "/dflt"),
+                                     ("isdir", b + "/a"), ("getinfo", b or "/"), ("readbytes", b + "/a/f0"),
+                                     ("writebytes", b + "/late", b"L"), ("scandir", b or "/")], 3):
+                    calls.append((o, "abs"))
+            for _ in range(3):
+                cc = rnd.choice(STAYING) if rnd.random() < 0.4 else "abs"
+                calls.append((rnd.choice(SINGLE_OPS)(SPELL[cc](rnd.choice(call_targets(targets)))), cc))
+            fixtures.append((args, classes, calls, when))
+    return fixtures
+
+
+def mount_config_sweep(rnd, seed, thorough, bad):
+    fixtures = mount_config_fixtures(rnd, thorough)
+    lines = []
+    for args, classes, calls, when in fixtures:
+        lines.append(mountable_line(args))
+        for mp in args:
+            lines.append(route_line([], mp))
+    model_prefetch(lines)
+    lines = []
+    for args, classes, calls, when in fixtures:
+        ok = parse_nats(model_ask(mountable_line(args)))
+        for j, (o, _c) in enumerate(calls):
+            lines.append(route_line([args[i] for i in ok if when[i] <= j], o[1]))
+    model_prefetch(lines)
+    stats = dict(mounts=0, calls=0, pairs=set(), early=0)
+    for fi, fx in enumerate(fixtures):
+        run_spelling_fixture(fx, seed * 6007 + fi, bad, stats, when=fx[3], kind="config")
+    return dict(fixtures=len(fixtures), mounts=stats["mounts"], calls=stats["calls"],
+                calls_made_before_the_last_mount=stats["early"],
+                gap_patterns=sorted(set(tuple(fx[3]) for fx in fixtures))[:12],
+                calls_before_a_mount=list(GAPS))
 
 
 # --------------------------------------------------------------------------- MultiFS: member-state sweep
@@ -946,6 +1066,593 @@ def multi_state_sweep(rnd, thorough, bad):
                 file_directory_collision_fixtures=stats["conflicts"], argument_variants=len(calls))
 
 
+# --------------------------------------------------------------------------- MultiFS: add_fs() interleaved with use
+#
+# add_fs after 0 / 1 / several calls, every priority relation (<, =, >) between the late member and the existing
+# ones, write=True / False, the same paths present in old and new members.  Oracle: the documented rule evaluated
+# on the CURRENT configuration - the member order comes from the extracted model (`route order` on the priorities
+# added so far), reads are the first holder's own answer, listings the de-duplicated union, which / iterate_fs /
+# get_fs must name what the reads observe, writes land in the member of the latest add_fs(write=True) - and a
+# freshly built MultiFS over the very same member objects must give the same answers.
+
+CFG_PATHS = ["shared", "top0", "top1", T, ANC, BELOW, "nope"]
+CFG_PATH_OPS = ("readbytes", "getinfo", "exists", "isdir", "which")
+CFG_DIRS = ["/", ANC]
+
+
+def cfg_keys():
+    keys = [(n, p) for p in CFG_PATHS for n in CFG_PATH_OPS]
+    keys += [(n, d) for d in CFG_DIRS for n in ("listdir", "scandir")]
+    keys += [("which-w", "shared"), ("which-w", "nope"), ("iterate_fs", None), ("get_fs", None), ("walk", None)]
+    return keys
+
+
+def cfg_actual(mf, key, members, n_total):
+    """One observation on a MultiFS, rendered (member objects are rendered as their index)."""
+    n, p = key
+    ident = dict((id(m), i) for i, m in enumerate(members))
+
+    def who(pair):
+        name, f = pair
+        return "%s=%s" % (name, ident.get(id(f), "?" if f is not None else None))
+    try:
+        if n == "which":
+            return "ok:" + who(mf.which(p))
+        if n == "which-w":
+            return "ok:" + who(mf.which(p, "w"))
+        if n == "iterate_fs":
+            return "ok:" + ",".join(who(x) for x in mf.iterate_fs())
+        if n == "get_fs":
+            out = []
+            for i in range(n_total):
+                try:
+                    out.append(who(("m%d" % i, mf.get_fs("m%d" % i))))
+                except KeyError:
+                    out.append("m%d:KeyError" % i)
+            return "ok:" + ",".join(out)
+        if n == "walk":
+            return "ok:" + ",".join(sorted(mf.walk.files()) + sorted(mf.walk.dirs()))
+        if n == "listdir":
+            return "ok:" + ",".join(sorted(mf.listdir(p)))
+        if n == "scandir":
+            return "ok:" + ",".join(sorted("%s/%s" % (i.name, i.is_dir) for i in mf.scandir(p)))
+    except Exception as e:  # noqa
+        return common.exc_name(e)
+    return fsops.execute(mf, (n, p))
+
+
+def cfg_expected(key, members, added, order, write):
+    """The documented answer from the members themselves; None when the rule does not fix it (file/directory
+    collisions across members in listings, walk)."""
+    n, p = key
+    if n == "iterate_fs":
+        return "ok:" + ",".join("m%d=%d" % (i, i) for i in order)
+    if n == "get_fs":
+        return "ok:" + ",".join(("m%d=%d" % (i, i)) if i in added else "m%d:KeyError" % i for i in range(len(members)))
+    if n == "which-w":
+        return "ok:" + ("None=None" if write is None else "m%d=%d" % (write, write))
+    if n == "walk":
+        return None
+    if n in ("listdir", "scandir"):
+        kinds = [("D" if members[i].isdir(p) else "F") for i in order if members[i].exists(p)]
+        if not kinds:
+            return "err:ResourceNotFound"
+        if "F" in kinds:
+            return None
+        names = {}
+        for i in order:
+            if members[i].exists(p):
+                for info in members[i].scandir(p):
+                    names.setdefault(info.name, info.is_dir)
+        if n == "listdir":
+            return "ok:" + ",".join(sorted(names))
+        return "ok:" + ",".join(sorted("%s/%s" % kv for kv in names.items()))
+    holders = [i for i in order if members[i].exists(p)]
+    if n == "which":
+        return "ok:" + ("m%d=%d" % (holders[0], holders[0]) if holders else "None=None")
+    if not holders:
+        return "ok:F" if n in ("exists", "isdir", "isfile") else "err:ResourceNotFound"
+    return fsops.execute(members[holders[0]], (n, p))
+
+
+def multi_config_fixtures(rnd, thorough):
+    """[(priorities, write flags, gaps)]: gaps[k] = what happens between add k and add k+1 (0 calls, 1 call,
+    the whole battery)."""
+    prio_values = (-1, 0, 1)
+    out = []
+    for n in (2, 3, 4):
+        every = []
+        for prios in itertools.product(prio_values, repeat=n):
+            write_sets = [()] + [(i,) for i in range(n)] + [tuple(range(n)), (0, n - 1)]
+            for ws in sorted(set(write_sets)):
+                for gaps in itertools.product(GAPS, repeat=n - 1):
+                    if any(gaps):
+                        every.append((list(prios), [i in ws for i in range(n)], list(gaps)))
+        if n == 2 or thorough and n == 3:
+            out += every
+        else:
+            out += rnd.sample(every, {3: 130, 4: 30}[n] if not thorough else 1500)
+    if thorough:
+        for _ in range(300):
+            n = rnd.randint(2, 5)
+            out.append(([rnd.choice([-7, -1, 0, 0, 1, 5]) for _ in range(n)], [rnd.random() < 0.4 for _ in range(n)],
+                        [rnd.choice(GAPS) for _ in range(n - 1)]))
+    return out
+
+
+def multi_config_sweep(rnd, thorough, bad):
+    from fs.multifs import MultiFS
+    from fs.memoryfs import MemoryFS
+    fixtures = multi_config_fixtures(rnd, thorough)
+    keys = cfg_keys()
+    lines = set()
+    for prios, writes, gaps in fixtures:
+        for k in range(1, len(prios) + 1):
+            lines.add(order_line(prios[:k]))
+    model_prefetch(sorted(lines))
+    stats = dict(observations=0, adds_after_use=0, relations=set(), write_probes=0, fresh_comparisons=0)
+    for prios, writes, gaps in fixtures:
+        n = len(prios)
+        states = [rnd.choice(MEMBER_STATES) for _ in range(n)]
+        members = []
+        for i in range(n):
+            m = MemoryFS()
+            fill_member(m, states[i], i)
+            members.append(m)
+        mf = MultiFS(auto_close=False)
+        write = None
+        used = 0
+        ctx0 = dict(priorities=prios, write_flags=writes, members=states,
+                    calls_between_adds=["whole battery" if g == 3 else g for g in gaps])
+        failed = False
+        for k in range(n):
+            mf.add_fs("m%d" % k, members[k], write=writes[k], priority=prios[k])
+            if writes[k]:
+                write = k
+            if k and used:
+                stats["adds_after_use"] += 1
+                top = max(prios[:k])
+                stats["relations"].add(("<" if prios[k] < min(prios[:k]) else ">" if prios[k] > top else
+                                        "=" if prios[k] == top else "between", writes[k]))
+            added = list(range(k + 1))
+            order = parse_nats(model_ask(order_line(prios[:k + 1])))
+            gap = gaps[k] if k < n - 1 else 3
+            todo = [] if gap == 0 else [rnd.choice(keys)] if gap == 1 else keys
+            ctx = dict(ctx0, members_added_so_far=k + 1, calls_made_before_this_add=used, model_order=order,
+                       write_member=write)
+            seen_now = {}
+            for key in todo:
+                used += 1
+                stats["observations"] += 1
+                got = seen_now[key] = cfg_actual(mf, key, members, n)
+                exp = cfg_expected(key, members, added, order, write)
+                if exp is not None and got != exp:
+                    what = "reads" if key[0] in CFG_PATH_OPS[:4] else "listings" if key[0] in ("listdir", "scandir") \
+                        else key[0]
+                    bad.append(("MultiFS %s do not follow the current configuration (add_fs interleaved with calls)" % what,
+                                dict(ctx, call=list(key)), got, dict(expected=exp)))
+                    failed = True
+                    break
+            if failed:
+                break
+            if gap == 3:
+                # a freshly built MultiFS over the very same members answers the same
+                fresh = MultiFS(auto_close=False)
+                for i in added:
+                    fresh.add_fs("m%d" % i, members[i], write=writes[i], priority=prios[i])
+                stats["fresh_comparisons"] += 1
+                for key in keys:
+                    a, b = seen_now[key], cfg_actual(fresh, key, members, n)
+                    if a != b:
+                        bad.append(("a MultiFS configured while in use differs from a freshly built one with the same "
+                                    "members", dict(ctx, call=list(key)), a, dict(freshly_built=b)))
+                        failed = True
+                        break
+                fresh.close()
+                if failed:
+                    break
+                # a write lands in the member of the latest add_fs(write=True) and nowhere else
+                before = [flat(m) for m in members]
+                o = ("writebytes", "new%d" % k, b"N")
+                res = fsops.execute(mf, o)
+                used += 1
+                stats["write_probes"] += 1
+                changed = [i for i, m in enumerate(members) if flat(m) != before[i]]
+                if write is None:
+                    okay = res == "err:ResourceReadOnly" and not changed
+                else:
+                    okay = res == "ok:U" and changed == [write] and members[write].readbytes("new%d" % k) == b"N"
+                if not okay:
+                    bad.append(("after add_fs() on a MultiFS already in use, a write does not go to the current write "
+                                "filesystem", dict(ctx, call=o), res, dict(changed_members=changed)))
+                    break
+        mf.close()
+        for m in members:
+            m.close()
+    return dict(fixtures=len(fixtures), observations=stats["observations"], adds_after_first_use=stats["adds_after_use"],
+                late_member_priority_relation_x_write=sorted("%s/write=%s" % r for r in stats["relations"]),
+                write_probes=stats["write_probes"], fresh_composite_comparisons=stats["fresh_comparisons"],
+                calls_between_adds=["0", "1", "whole battery (%d observations)" % len(keys)])
+
+
+# --------------------------------------------------------------------------- OS-backed members
+#
+# Members of the sweeps above are MemoryFS, where everything that is not data / metadata (system paths, URLs,
+# links, descriptions, path validation, the os-level fast path of fs.move.move_file) has one trivial answer.
+# Here OSFS / TempFS / SubFS(OSFS) members are mixed with MemoryFS ones and every such method is compared with the
+# routed member's own answer for the relative path (member and relative path from the extracted routing model).
+
+OS_KINDS = ("os", "temp", "ossub")
+QUERIES = [("getsyspath",), ("getospath",), ("hassyspath",), ("geturl", "download"), ("geturl", "fs"),
+           ("geturl", "bogus"), ("hasurl", "download"), ("hasurl", "fs"), ("hasurl", "bogus"), ("desc",),
+           ("validatepath",), ("islink",), ("getinfo-ns",)]
+
+
+def make_member(kind, work, idx, rnd, decoys=()):
+    """A pre-filled member of the given kind; OS-backed ones also get a symlink and (decoys) a directory that is
+    spelled like the mount point with files named like the real ones."""
+    import os
+    from fs.memoryfs import MemoryFS
+    from fs.osfs import OSFS
+    from fs.tempfs import TempFS
+    tag = str(idx)
+    holder = None
+    if kind == "mem":
+        m = MemoryFS()
+    elif kind == "os":
+        d = os.path.join(work, "m" + tag)
+        os.mkdir(d)
+        m = OSFS(d)
+    elif kind == "temp":
+        m = TempFS(identifier="verif" + tag, temp_dir=work)
+    else:
+        d = os.path.join(work, "s" + tag)
+        os.mkdir(d)
+        holder = OSFS(d)
+        holder.makedir("inner")
+        m = holder.opendir("inner")
+    prefill(m, rnd, tag)
+    m.writebytes("top" + tag, tag.encode())
+    m.writebytes("shared", tag.encode())
+    m.writebytes("mv" + tag, b"move-me-" + tag.encode())
+    m.writebytes("mw" + tag, b"move-me-too-" + tag.encode())
+    for rel in decoys:
+        rel = rel.strip("/")
+        if rel:
+            m.makedirs(rel, recreate=True)
+            for n in ("top" + tag, "shared", "mv" + tag):
+                m.writebytes(rel + "/" + n, b"decoy")
+    if kind != "mem":
+        os.symlink("top" + tag, os.path.join(m.getsyspath("/"), "lnk" + tag))
+    return m, holder
+
+
+def store_files(store):
+    """path -> bytes of every file (None for a directory) of a member, asked of the member itself."""
+    out = {}
+    for path, info in store.walk.info():
+        out[path] = None if info.is_dir else store.readbytes(path)
+    return out
+
+
+def q_call(fsobj, q, path, rename=None):
+    try:
+        if q[0] == "getinfo-ns":
+            raw = fsobj.getinfo(path, namespaces=["details", "access", "link"]).raw
+            raw = dict((k, dict(v)) for k, v in raw.items())
+            if rename:
+                raw["basic"]["name"] = rename
+            return "ok:" + repr(sorted((k, sorted(v.items(), key=repr)) for k, v in raw.items()))
+        if q[0] in ("geturl", "hasurl"):
+            return "ok:" + repr(getattr(fsobj, q[0])(path, purpose=q[1]))
+        return "ok:" + repr(getattr(fsobj, q[0])(path))
+    except Exception as e:  # noqa
+        return common.exc_name(e)
+
+
+def desc_ok(text, routed, others, rel):
+    """A description names the filesystem the path is routed to (or is that filesystem's own description) and no
+    other one."""
+    if not text.startswith("ok:"):
+        return False
+    try:
+        own = "ok:" + repr(routed.desc(rel))
+    except Exception:  # noqa
+        own = None
+    if text != own and str(routed) not in text:
+        return False
+    return not any(str(o) != str(routed) and str(o) in text for o in others)
+
+
+def compare_query(label, comp_name, q, got, exp, ctx, bad):
+    if got != exp:
+        bad.append(("a method that is neither data nor metadata is not answered by the routed filesystem (%s.%s)"
+                    % (comp_name, q[0]), dict(ctx, call=[q[0], label] + list(q[1:])), got, dict(expected=exp)))
+        return False
+    return True
+
+
+def normal_abs(path):
+    import fs.path as P
+    return "ok:" + repr(P.abspath(P.normpath(path)))
+
+
+def os_mount_fixtures(rnd, thorough):
+    fixtures = []
+    for _ in range(3 if thorough else 1):
+        for t in MOUNT_TARGETS:
+            for kind in OS_KINDS:
+                others = [x for x in MOUNT_TARGETS if x != t]
+                rnd.shuffle(others)
+                k = rnd.choice([0, 1, 2, 2])
+                targets = [t] + others[:k]
+                kinds = [kind] + [rnd.choice(("mem", "os", "temp", "mem")) for _ in range(k)]
+                pairs = list(zip(targets, kinds))
+                rnd.shuffle(pairs)
+                fixtures.append(pairs)
+    return fixtures
+
+
+def plan_os_mount_fixture(pairs, rnd, thorough):
+    """(accepted indices, live mount points, spelled call paths, model lines needed)."""
+    args = [t for t, _k in pairs]
+    ok = parse_nats(model_ask(mountable_line(args)))
+    live = [args[i] for i in ok]
+    paths = call_targets(live)
+    for i, t in zip(ok, live):
+        b, tag = t.rstrip("/"), str(i)
+        paths += [b + "/lnk" + tag, b + "/mv" + tag, b + "/a\0b", b + t + "/top" + tag, b + "/top" + tag]
+    if not thorough:
+        paths = rnd.sample(paths, min(len(paths), 30)) + [t.rstrip("/") + "/top%d" % i for i, t in zip(ok, live)]
+    spelled = []
+    for pth in paths:
+        cc = rnd.choice(STAYING) if rnd.random() < 0.25 and "\0" not in pth else "abs"
+        spelled.append(SPELL[cc](pth))
+    lines = [route_line(live, pth) for pth in spelled]
+    for n, (i, t) in enumerate(zip(ok, live)):
+        b, tag, dstb = t.rstrip("/"), str(i), live[(n + 1) % len(live)].rstrip("/")
+        lines += [route_line(live, x) for x in (b + "/mv" + tag, dstb + "/in" + tag, dstb + "/mw-in" + tag)]
+    return ok, live, spelled, lines
+
+
+class MoveChecker(object):
+    """Runs a file move and compares every store (each member, the default tree, the outside OSFS) with the
+    expected effect: the file leaves the routed source, arrives at the routed destination, nothing else changes."""
+    def __init__(self, stores, names, ctx, bad, stats):
+        self.stores, self.names, self.ctx, self.bad, self.stats = stores, names, ctx, bad, stats
+        self.state = [store_files(s_) for s_ in stores]
+
+    def index(self, store):
+        return [i for i, s_ in enumerate(self.stores) if s_ is store][0]
+
+    def check(self, what, thunk, src_store, src_rel, dst_store, dst_rel, refused=None):
+        import fs.path as P
+        data = src_store.readbytes(src_rel)
+        try:
+            thunk()
+            res = "ok"
+        except Exception as e:  # noqa
+            res = common.exc_name(e)
+        self.stats["moves"] += 1
+        want = [dict(b) for b in self.state]
+        if refused is None:
+            want[self.index(src_store)].pop(P.abspath(src_rel), None)
+            want[self.index(dst_store)][P.abspath(dst_rel)] = data
+        after = self.state = [store_files(s_) for s_ in self.stores]
+        if res != (refused or "ok") or after != want:
+            diffs = {}
+            for si, (a, w) in enumerate(zip(after, want)):
+                d = sorted(p_ for p_ in set(a) | set(w) if a.get(p_, "-") != w.get(p_, "-"))
+                if d:
+                    diffs[self.names[si]] = d
+            self.bad.append(("moving a file through a composite with OS-backed members does not move it between the "
+                             "routed filesystems (%s)" % what.split(":")[0], dict(self.ctx, call=what), res,
+                             dict(expected_outcome=refused or "ok", paths_that_differ_from_the_expected_effect=diffs)))
+
+
+def run_os_mount_fixture(pairs, plan, rnd, thorough, bad, stats):
+    import os
+    import shutil
+    import tempfile
+    import fs.path as P
+    from fs.mountfs import MountFS
+    from fs.osfs import OSFS
+    from fs.move import move_file
+    ok, live, spelled, _lines = plan
+    work = os.path.realpath(tempfile.mkdtemp(prefix="pyfs2verif_c17_"))
+    opened = []
+    try:
+        mf = MountFS()
+        opened.append(mf)
+        members, kinds = [], []
+        for i in ok:
+            t, kind = pairs[i]
+            m, holder = make_member(kind, work, i, rnd, decoys=[x for x in MOUNT_TARGETS if x != "/"])
+            opened += [m] + ([holder] if holder is not None else [])
+            mf.mount(t, m)
+            members.append(m)
+            kinds.append(kind)
+        ctx = dict(mounts=[[t, k] for t, k in zip(live, kinds)])
+        for pth in spelled:
+            route = parse_route(model_ask(route_line(live, pth)))
+            if route == "err":
+                continue
+            if route is None:
+                routed, rel, rename = mf.default_fs, pth, None
+            else:
+                routed, rel = members[route[0]], route[1]
+                rename = P.basename(P.abspath(P.normpath(pth))) if rel in ("", "/") else None
+                stats["kinds"].add(kinds[route[0]])
+            c2 = dict(ctx, routed=("default" if route is None else list(route)))
+            for q in QUERIES:
+                stats["queries"] += 1
+                stats["methods"].add(q[0])
+                got = q_call(mf, q, pth)
+                if q[0] == "desc":
+                    try:
+                        exists = "err:ResourceNotFound" if not routed.exists(rel) else None
+                    except Exception as e:  # noqa
+                        exists = common.exc_name(e)
+                    others = [m for m in members if m is not routed] + ([mf.default_fs] if route is not None else [])
+                    if exists is not None:
+                        compare_query(pth, "MountFS", q, got, exists, c2, bad)
+                    elif not desc_ok(got, routed if route is not None else mf, others, rel) and \
+                            not (route is None and desc_ok(got, mf.default_fs, others, rel)):
+                        compare_query(pth, "MountFS", q, got, "ok:<a text naming %s>" % routed, c2, bad)
+                    continue
+                exp = q_call(routed, q, rel, rename)
+                if q[0] == "validatepath" and exp.startswith("ok:"):
+                    exp = normal_abs(pth)
+                compare_query(pth, "MountFS", q, got, exp, c2, bad)
+        # ---- moving files between members: the os-level fast path of fs.move.move_file (and MountFS.move)
+        out = OSFS(os.path.join(work, "out"), create=True)
+        opened.append(out)
+        mc = MoveChecker(members + [mf.default_fs, out], ["member %d" % i for i in ok] + ["default", "out"], ctx, bad, stats)
+        for n, (i, t, m) in enumerate(zip(ok, live, members)):
+            b, tag, dstb = t.rstrip("/"), str(i), live[(n + 1) % len(live)].rstrip("/")
+            src, dst, src2, dst2 = b + "/mv" + tag, dstb + "/in" + tag, b + "/mw" + tag, dstb + "/mw-in" + tag
+            # is the member reachable at its mount point?
+            r = parse_route(model_ask(route_line(live, src)))
+            if r in (None, "err") or members[r[0]] is not m or r[1] != "mv" + tag:
+                continue
+            mc.check("move_file(MountFS -> OSFS): %s" % src, lambda: move_file(mf, src, out, "got" + tag),
+                     m, "mv" + tag, out, "got" + tag)
+            r2 = parse_route(model_ask(route_line(live, dst)))
+            if r2 not in (None, "err"):
+                mc.check("move_file(OSFS -> MountFS): %s" % dst, lambda: move_file(out, "got" + tag, mf, dst),
+                         out, "got" + tag, members[r2[0]], r2[1])
+            r3 = parse_route(model_ask(route_line(live, dst2)))
+            if r3 not in (None, "err"):
+                mc.check("MountFS.move: %s -> %s" % (src2, dst2), lambda: mf.move(src2, dst2),
+                         m, "mw" + tag, members[r3[0]], r3[1])
+    finally:
+        for o in reversed(opened):
+            try:
+                o.close()
+            except Exception:  # noqa
+                pass
+        shutil.rmtree(work, ignore_errors=True)
+
+
+def os_multi_fixtures(rnd, thorough):
+    fixtures = []
+    for _ in range(3 if thorough else 1):
+        for kind in OS_KINDS:
+            for n in (2, 3):
+                for write in [None] + list(range(n)):
+                    kinds = [rnd.choice(("mem", "os", "temp", "ossub")) for _ in range(n)]
+                    kinds[rnd.randrange(n)] = kind
+                    prios = [rnd.choice([0, 0, 1, -1]) for _ in range(n)]
+                    fixtures.append((kinds, prios, write))
+    if not thorough:
+        fixtures = rnd.sample(fixtures, 12)
+    return fixtures
+
+
+def run_os_multi_fixture(fx, rnd, thorough, bad, stats):
+    import os
+    import shutil
+    import tempfile
+    import fs.path as P
+    from fs.multifs import MultiFS
+    from fs.osfs import OSFS
+    from fs.move import move_file
+    kinds, prios, write = fx
+    work = os.path.realpath(tempfile.mkdtemp(prefix="pyfs2verif_c17_"))
+    opened = []
+    try:
+        mf = MultiFS()
+        opened.append(mf)
+        members = []
+        for i, kind in enumerate(kinds):
+            m, holder = make_member(kind, work, i, rnd)
+            opened += [m] + ([holder] if holder is not None else [])
+            members.append(m)
+            mf.add_fs("m%d" % i, m, write=(write == i), priority=prios[i])
+        order = parse_nats(model_ask(order_line(prios)))
+        ctx = dict(members=kinds, priorities=prios, write=write, model_order=order)
+        paths = ["shared", "/", "nope", "a", "a/f0", "ab/f1", "c", "x/f2", "a\0b", "zz/../shared", "/shared/", "./top0"]
+        for i in range(len(kinds)):
+            paths += ["top%d" % i, "lnk%d" % i, "mv%d" % i]
+        for pth in paths:
+            try:
+                holders = [i for i in order if members[i].exists(pth)]
+            except Exception:  # noqa
+                holders = []
+            c2 = dict(ctx, first_holder=holders[0] if holders else None)
+            for q in QUERIES:
+                stats["queries"] += 1
+                stats["methods"].add(q[0])
+                got = q_call(mf, q, pth)
+                if holders:
+                    stats["kinds"].add(kinds[holders[0]])
+                if q[0] == "validatepath":
+                    if write is None:
+                        continue
+                    exp = q_call(members[write], q, pth)
+                    exp = normal_abs(pth) if exp.startswith("ok:") else exp
+                elif not holders:
+                    if "\0" in pth:
+                        continue
+                    exp = "ok:False" if q[0] in ("hassyspath", "hasurl") else "err:ResourceNotFound"
+                elif q[0] == "desc":
+                    if not members[holders[0]].hassyspath(pth):
+                        if not got.startswith("ok:"):
+                            compare_query(pth, "MultiFS", q, got, "ok:<a description>", c2, bad)
+                        continue
+                    exp = q_call(members[holders[0]], q, pth)
+                else:
+                    exp = q_call(members[holders[0]], q, pth)
+                compare_query(pth, "MultiFS", q, got, exp, c2, bad)
+        # ---- fs.move.move_file out of / into the MultiFS
+        out = OSFS(os.path.join(work, "out"), create=True)
+        opened.append(out)
+        mc = MoveChecker(members + [out], ["member %d" % i for i in range(len(members))] + ["out"], ctx, bad, stats)
+        check_move = mc.check
+        for i, m in enumerate(members):
+            tag = str(i)
+            check_move("move_file(MultiFS -> OSFS): mv%s" % tag, lambda: move_file(mf, "mv" + tag, out, "got" + tag),
+                       m, "mv" + tag, out, "got" + tag)
+            # into the MultiFS: a new name, and a name that exists in every member - both are writes
+            for dst in ("in" + tag, "shared"):
+                how = "move_file(OSFS -> MultiFS, a %s): %s" % ("new name" if dst != "shared" else
+                                                               "name that exists in the members", dst)
+                out.writebytes("o" + tag, b"from-outside-" + tag.encode())
+                mc.state[-1]["/o" + tag] = b"from-outside-" + tag.encode()
+                if write is None:
+                    check_move(how, lambda: move_file(out, "o" + tag, mf, dst),
+                               out, "o" + tag, out, dst, refused="err:ResourceReadOnly")
+                else:
+                    check_move(how, lambda: move_file(out, "o" + tag, mf, dst),
+                               out, "o" + tag, members[write], dst)
+    finally:
+        for o in reversed(opened):
+            try:
+                o.close()
+            except Exception:  # noqa
+                pass
+        shutil.rmtree(work, ignore_errors=True)
+
+
+def os_member_sweep(rnd, thorough, bad):
+    stats = dict(queries=0, moves=0, methods=set(), kinds=set())
+    mfx = os_mount_fixtures(rnd, thorough)
+    model_prefetch([mountable_line([t for t, _k in pairs]) for pairs in mfx])
+    plans = [plan_os_mount_fixture(pairs, rnd, thorough) for pairs in mfx]
+    model_prefetch([l for pl in plans for l in pl[3]])
+    for pairs, plan in zip(mfx, plans):
+        run_os_mount_fixture(pairs, plan, rnd, thorough, bad, stats)
+    mount_queries, mount_moves = stats["queries"], stats["moves"]
+    ufx = os_multi_fixtures(rnd, thorough)
+    model_prefetch([order_line(f[1]) for f in ufx])
+    for fx in ufx:
+        run_os_multi_fixture(fx, rnd, thorough, bad, stats)
+    return dict(mountfs_fixtures=len(mfx), multifs_fixtures=len(ufx), member_kinds=["mem"] + list(OS_KINDS),
+                routed_member_kinds_reached=sorted(stats["kinds"]), methods=sorted(stats["methods"]),
+                mountfs_queries=mount_queries, multifs_queries=stats["queries"] - mount_queries,
+                mountfs_file_moves=mount_moves, multifs_file_moves=stats["moves"] - mount_moves)
+
+
 def fsops_strip(s):
     import re
     return re.sub(r"\|(N|Si-?\d+)\)", ")", s)
@@ -1033,6 +1740,10 @@ def run(report):
     # ---- MountFS: mount-point spelling classes x call-path spelling classes (twin oracle)
     spell_cov = spelling_sweep(rnd, report.seed, thorough, bad)
     total += spell_cov["calls"] + spell_cov["mounts"]
+    # ---- MountFS: mount() after first use, on paths that already have content in the default tree
+    cfg_rnd = random.Random(report.seed + 1717)      # own stream: the sweeps above / below keep theirs
+    mconf_cov = mount_config_sweep(cfg_rnd, report.seed, thorough, bad)
+    total += mconf_cov["calls"] + mconf_cov["mounts"]
     # ---- MultiFS
     mtotal = 0
     mcs = [multi_case(rnd) for _ in range(700 if thorough else 140)]
@@ -1047,6 +1758,12 @@ def run(report):
     # ---- MultiFS: every FS method x where the path and its ancestors live
     state_cov = multi_state_sweep(rnd, thorough, bad)
     total += state_cov["calls"]
+    # ---- MultiFS: add_fs() interleaved with calls (0 / 1 / many calls before a member is added)
+    uconf_cov = multi_config_sweep(cfg_rnd, thorough, bad)
+    total += uconf_cov["observations"] + uconf_cov["write_probes"]
+    # ---- OSFS / TempFS / SubFS(OSFS) members: system paths, URLs, links, descriptions, validation, file moves
+    os_cov = os_member_sweep(cfg_rnd, thorough, bad)
+    total += os_cov["mountfs_queries"] + os_cov["multifs_queries"] + os_cov["mountfs_file_moves"] + os_cov["multifs_file_moves"]
     seen = set()
     pending_seen = {}
     for why, ctx, outc, extra in bad:
@@ -1075,6 +1792,8 @@ def run(report):
                samples=[dict(mounts=mcases[0][0], history=[list(map(str, o)) for o in mcases[0][1]][:4])],
                disagreements_checked=len(bad), multifs_steps=mtotal,
                mount_spelling_sweep=spell_cov, multifs_member_state_sweep=state_cov,
+               mountfs_mount_interleaved_with_calls=mconf_cov, multifs_add_fs_interleaved_with_calls=uconf_cov,
+               os_backed_members_sweep=os_cov,
                spelling_classes=[n for n, _ in SPELLINGS],
                pending_findings_seen=pending_seen,
                traces_validated_against_impl=total - len(bad))
